@@ -113,6 +113,10 @@ type VC struct {
 	entry     *State
 	lemmaName string
 	canary    *Obligation
+	guardSeen map[string]bool
+	acquired  map[string]bool
+	inAtomic  int
+	curPos    token.Pos
 }
 
 type frame struct {
@@ -245,7 +249,7 @@ func (vc *VC) query(o *Obligation, model bool) string {
 		b.WriteByte('\n')
 	}
 	for i, t := range vc.trace[:o.TraceN] {
-		if l := vc.labels[i]; l != "" && o.dropLabel(l) {
+		if l := vc.labels[i]; l != "" && (o.dropLabel(l) || (l == "lockstate" && o.Kind != "lock")) {
 			b.WriteString("; hidden hypothesis [" + l + "]\n")
 			continue
 		}
